@@ -40,8 +40,14 @@ def run_unit(args):
         return {"unit": qualname, "split": split, "results": [r.as_dict() for r in res], "trusted": sorted(ex.trusted_used),
                 "called": sorted(getattr(ex, "called", [])), "wall": time.time() - t0, "error": None, "canary": canary}
     except Unsupported as u:
-        return {"unit": qualname, "split": split, "results": [], "trusted": [], "called": [], "wall": time.time() - t0,
-                "error": f"unsupported: {u}", "canary": canary}
+        fatal = []
+        try:
+            if getattr(ex, "fatal", False):
+                fatal = [r.as_dict() for r in ex.results if r.status != "discharged" and ":purity:" in r.name]
+        except NameError:
+            pass
+        return {"unit": qualname, "split": split, "results": fatal, "trusted": [], "called": [], "wall": time.time() - t0,
+                "error": None if fatal else f"unsupported: {u}", "canary": canary}
     except Exception:
         return {"unit": qualname, "split": split, "results": [], "trusted": [], "called": [], "wall": time.time() - t0,
                 "error": "crash: " + traceback.format_exc()[-1500:], "canary": canary}
@@ -73,7 +79,8 @@ def run_property(pid, P, tier, repo, seed):
     by_backend, trusted, solver_s = {}, set(), 0.0
     canary_ok = canary_total = 0
     demoted = set(P.get("demoted_obligations", []))
-    unbound = {o["unit"] for o in outs if o["error"] and o["error"].startswith("unsupported")}
+    unbound = {o["unit"] for o in outs if (o["error"] and o["error"].startswith("unsupported"))
+               or any(":purity:" in r["name"] for r in o["results"])}
     seen_unbound = set()
     for o in outs:
         if o["canary"]:
